@@ -260,12 +260,25 @@ class Reversal(common.Suite):
                 # enough that this amplification stays far below the 1e-9 tolerance
                 s["steps"] = min(s["steps"], 100)
             s["apply"] = rng.random() < 0.7
+            # rigid bonds (ASE FixBondLengths): the position correction of the drift is NOT the projection applied to the
+            # momenta, so the integrator has to feed it back into the half-step momenta (RATTLE) to stay reversible
+            s["bonds"] = None
+            if i % 5 == 2 and len(s["symbols"]) >= 3 and not emt:
+                s["bonds"] = [[0, 1], [1, 2]] if rng.random() < 0.6 else [[0, 1]]
+                s["apply"] = True
+                s["steps"] = min(s["steps"], 25)
+                s["dt_fs"] = s["dt_fs"] * 0.5
             yield s
 
     def real(self, case):
         q = _import()
         atoms = H.make_atoms(case)
         attach_calc(atoms, case["ff"])
+        if case.get("bonds"):
+            from ase.constraints import FixBondLengths
+
+            atoms.set_constraint(FixBondLengths(case["bonds"]))
+            atoms.set_momenta(atoms.get_momenta())        # momenta consistent with the constraint
         ctx = q["Ctx"](atoms, np.random.default_rng(0))
         integ = make_verlet(q, case["dt_fs"], case["steps"], case["apply"])
         if case["steps"] % 2:
@@ -291,7 +304,9 @@ class Reversal(common.Suite):
         tol_q = 1e-9 * max(1.0, obs["qmax"])
         # momenta: 1e-9 relative + the rounding budget of `(positions' - positions) * m / dt` (eps*|q|*m/dt per step)
         tol_p = 1e-9 * max(obs["pmax"], 1e-12) + 100 * EPS * 2 * case["steps"] * obs["mmax"] * max(1.0, obs["qmax"]) / obs["dt"]
-        key = f"{case['ff']['kind']}:apply={int(case['apply'])}"
+        key = f"{case['ff']['kind']}:apply={int(case['apply'])}" + (":rigid-bonds" if case.get("bonds") else "")
+        if case.get("bonds"):
+            tol_q, tol_p = 1e-7 * max(1.0, obs["qmax"]), 1e-6 * max(obs["pmax"], 1e-12) + tol_p   # SHAKE iterates to 1e-13 per step
         if not (obs["err_q"] <= tol_q):
             out.append((f"reversal:positions:{key}", f"|q_back - q_0| = {obs['err_q']:.3e} > {tol_q:.1e} after {case['steps']} steps"))
         if not (obs["err_p"] <= tol_p):
@@ -301,7 +316,8 @@ class Reversal(common.Suite):
     def classify(self, case, obs):
         if obs.get("moved", 0.0) == 0.0:
             return None
-        return f"{case['ff']['kind']}:apply={int(case['apply'])}:steps={'<=5' if case['steps'] <= 5 else ('<=50' if case['steps'] <= 50 else '>50')}"
+        return (f"{case['ff']['kind']}:apply={int(case['apply'])}:steps={'<=5' if case['steps'] <= 5 else ('<=50' if case['steps'] <= 50 else '>50')}"
+                + (":rigid-bonds" if case.get("bonds") else ""))
 
 
 # ============================================================================ 3. order of the energy error (oracle)
